@@ -51,14 +51,14 @@ ASSUMPTIONS = ["harness timestamps are ms-exact and re-read through getTimestamp
                "time between the two coincident fixes is accepted",
                "requests are sorted; intervals are > 0 and yield at most ~400 samples"]
 CASE_LIMIT_S = 20.0
-NCHUNK = 32
+NCHUNK = 16
 
 YEARS = [1971, 1999, 2000, 2016, 2019, 2020, 2023, 2024, 2037]
 STEP_CHOICES = [1, 1, 2, 3, 10, 100, 999, 1000, 1000, 1001, 5000, 60000, 3600000]
 
 
 def chunks(tier, seed):
-    n = 600 if tier == "quick" else 6000
+    n = 1200 if tier == "quick" else 12000
     return [{"key": "r%d" % k, "n": n} for k in range(NCHUNK)]
 
 
@@ -594,32 +594,6 @@ def run_case(case, ctx):
 
 
 def classify(case, witness):
-    """Known-finding id from the INPUT mechanism.
-
-    C05:spatial-trailing-repeated-position -- spatial request, the last leg of
-    the polyline has zero 2-D length (last two fixes share x and y) and the
-    last sample lands on the end of the polyline (floor(L/ds)*ds reaches L
-    within rounding); observed as a ZeroDivisionError raised by resample."""
-    try:
-        mode = case.get("mode", "")
-        if not mode.startswith("S"):
-            return None
-        raised = (witness or {}).get("raised")
-        text = raised.brief() if isinstance(raised, M.Raised) else (raised or {}).get("raised", "")
-        if not str(text).startswith("ZeroDivisionError"):
-            return None
-        pts = case["pts"]
-        if not (pts[-1][0] == pts[-2][0] and pts[-1][1] == pts[-2][1]):
-            return None
-        ds = case["arg"] if mode == "S" else ((witness.get("delta_seen") or [None])[-1])
-        if not isinstance(ds, (int, float)) or not ds > 0:
-            return None
-        L = _len2d(pts)
-        if L <= 0:
-            return None
-        N = int(L / ds + 1e-9)
-        if N >= 1 and N * ds >= L * (1 - 1e-12):
-            return "C05:spatial-trailing-repeated-position"
-    except Exception:
-        return None
+    # No open finding.  The one defect this check found (ZeroDivisionError when the track ends with a repeated
+    # position and k*ds rounds above the last abscissa) was fixed in /repo (1e62230); fixed entries suppress nothing.
     return None
